@@ -22,7 +22,7 @@ LEVEL = ("closed systems (Hamiltonian and its rotating-wave setting defined outs
          "the same bound, positive semidefiniteness, trace, Hermiticity; Redfield tensors of generated aggregates "
          "(static/time dependent, operator/tensor form, secular, with Lorentzian/Gaussian pure dephasing): trace and "
          "Hermiticity at every stored time."
-         " Later additions: calls made while other energy units are current (propagation, frame conversion); rotating frame in the commuting Lindblad + dephasing cases; repeated frame conversions; state-vector evolutions turned into density-matrix evolutions before the conversion.")
+         " Later additions: calls made while other energy units are current (propagation, frame conversion); rotating frame in the commuting Lindblad + dephasing cases; repeated frame conversions; state-vector evolutions turned into density-matrix evolutions before the conversion. Round five: stored state vectors read in the eigenbasis of the Hamiltonian; the aggregate's own pure-dephasing object.")
 NOTE = ("x = dt_refined*||L||_2 is generated in [0.05, 0.5]; dim <= 5; <= 60 stored times (Redfield: the bath's time "
         "axis, <= 150). RWA clause only without relaxation and for block-diagonal Hamiltonians (where the rotating "
         "frame is an exact transformation); Lindblad clauses in the laboratory frame. Positivity is not claimed for "
